@@ -51,7 +51,10 @@ def replay(ctx, cfg, events, ops, expected, mres, props):
             ctx.disagree("parse-time linking ~ Model.Build.feed", {"events": events}, d[:4], None)
             return
     for k, op in enumerate(ops):
+        le = listedit_before(forest, op)
         status = forest.apply(op)
+        if le is not None and status == 0 and ctx.build.model_ok:
+            ctx.listedit.append((le, [forest.oid(c) for c in le[4].contents], {"events": events, "ops": ops[:k + 1], "step": k}))
         case = {"events": events, "ops": ops[:k + 1], "step": k}
         if isinstance(status, str):
             ctx.disagree("editing call raised an unexpected exception", case, status, None)
@@ -106,3 +109,62 @@ def compare_views(ctx, forest, views, case):
             if ids != views[i][k]:
                 ctx.disagree("traversal generator %s ~ Model.Iter" % names[k], case, {"element": i, "ids": ids}, views[i][k])
                 return
+
+
+def listedit_before(forest, op):
+    """For insert / insert_before / insert_after / replace_with whose arguments are all existing non-document elements:
+    (kind, n, cs, K_before, parent_object) so that the call's effect on the parent's child list can be compared with
+    the list-level model Spec.ListEdit (which is what the C02 theorems are about)."""
+    from bs4 import BeautifulSoup
+    c = op[0]
+    if c not in (0, 4, 5, 7):
+        return None
+    args = op[3] if c == 0 else op[2]
+    if not args or any(a[0] != 0 for a in args):
+        return None
+    if any(a[1] >= len(forest.objs) or forest.objs[a[1]] is None or isinstance(forest.objs[a[1]], BeautifulSoup) for a in args):
+        return None
+    cs = [a[1] for a in args]
+    if len(set(cs)) != len(cs):
+        return None
+    o = forest.objs[op[1]]
+    if o is None or forest.dead(o):
+        return None
+    if c == 0:
+        parent, n = o, op[2]
+    else:
+        parent, n = o.parent, op[1]
+        if parent is None or op[1] in cs:
+            return None
+    if c == 7 and forest.oid(parent) in cs:
+        return None
+    # an argument must not be an ancestor-or-self of the parent
+    anc = parent
+    while anc is not None:
+        if forest.oid(anc) in cs:
+            return None
+        anc = anc.parent
+    return (c, n, cs, [forest.oid(k) for k in parent.contents], parent)
+
+
+def flush_listedit(ctx):
+    """Run the collected list-level cases through the model: code's effect = kmove_all/kbefore/kafter/kreplace = documented splice."""
+    items = ctx.listedit
+    ctx.listedit = []
+    if not items:
+        return
+    cmds = []
+    for (c, n, cs, K, _), after, case in items:
+        cmds.append([13, c, n, cs, K])
+        cmds.append([13, 100 + c, n, cs, K])
+    res = ctx.model.run(cmds)
+    for i, ((c, n, cs, K, _), after, case) in enumerate(items):
+        ctx.count("listedit_cases")
+        if res[2 * i] != after:
+            ctx.disagree("effect of the call on the parent's child list ~ Spec.ListEdit (kmove_all/kbefore/kafter/kreplace)",
+                         case, after, res[2 * i])
+            return
+        if res[2 * i + 1] != after:
+            ctx.fail(case, "arguments not contiguous / in order / at the requested place (documented splice, Spec.ListEdit)",
+                     after, res[2 * i + 1])
+            return
